@@ -1,6 +1,6 @@
 Require Extraction.
 Require Import ExtrOcamlBasic.
-Require Import BertE.Base.Anchors BertE.Model.Git BertE.Model.Flow BertE.Model.Gate.
+Require Import BertE.Base.Anchors BertE.Model.Pipeline BertE.Model.Git BertE.Model.Flow BertE.Model.Gate.
 Extraction "../build/ocaml/C03/model.ml" anchor_types git_merge anc push_all_atomic push_names
   merge_integration_ops merge_queues_ops merge_integration merge_queues add_to_queue add_to_queue_ops incl_b
-  update_ops check_in_sync is_needed.
+  update_ops check_in_sync is_needed run_handler.
